@@ -28,64 +28,71 @@ theorem code_shape :
     Generated.C09.sizeLoopChecksMin = true ∧ Generated.C09.timeLoopChecksMin = true ∧
     Generated.C09.deletesUpToIdxMinusOne = true ∧ Generated.C09.dryRunReturnsBeforeDelete = true ∧
     Generated.C09.globalMinSrcSize = 0 ∧ Generated.C09.globalMaxSrcSize = 1 ∧
-    Generated.C09.globalChunksDelta = "len(cks)" := by decide
+    -- b1a5e66: one snapshot of the chunk sizes for the total and the guards
+    Generated.C09.truncateReadsJournalSize = false ∧ Generated.C09.totalIsSnapshotSum = true ∧
+    Generated.C09.loopsRereadChunkSize = false ∧
+    -- 49b0b2b: the dry MAXDBSIZE pass subtracts the chunks phase I already counted
+    Generated.C09.globalChunksDelta = "nck" ∧ Generated.C09.dryDeltaSubtractsPhase1 = true ∧
+    -- cac5c5d: equal latest timestamps are ordered by source id
+    Generated.C09.insertPredicate =
+      "si.LatestTs < ti.LatestTs || (si.LatestTs == ti.LatestTs && si.Src >= ti.Src)" := by decide
 
 /-! ## one partition (phase I: `truncate` with the statement's parameters) -/
 
 /-- **Only whole chunks, only the oldest**: whatever `Journal.Size()` answered, the chunks afterwards are the
 chunks before minus a prefix of `n ≤ len` chunks (`n` = the chooser's count, also the count reported), and a DRYRUN
 keeps all of them. Chunk ids ascend (library contract A.2). -/
-theorem truncate_prefix (p : Params) (cks : List Chunk) (jsize : Nat) (hs : Ascending cks) :
-    (chooseNow p cks jsize).n ≤ cks.length ∧
-    (truncateNow p cks jsize).n = (chooseNow p cks jsize).n ∧
-    (truncateNow p cks jsize).chunks = if p.dryRun = true then cks else cks.drop (chooseNow p cks jsize).n :=
-  ⟨choose_n_le _ p cks jsize, truncate_n _ p cks jsize hs, truncate_chunks _ p cks jsize hs⟩
+theorem truncate_prefix (p : Params) (cks : List Chunk) (hs : Ascending cks) :
+    (chooseNow p cks).n ≤ cks.length ∧
+    (truncateNow p cks).n = (chooseNow p cks).n ∧
+    (truncateNow p cks).chunks = if p.dryRun = true then cks else cks.drop (chooseNow p cks).n :=
+  ⟨choose_n_le _ p cks, truncate_n _ p cks hs, truncate_chunks _ p cks hs⟩
 
 /-- **Content afterwards is a suffix of the content before** (`ev` = the events a chunk holds). -/
-theorem suffix_after {α : Type} (ev : Chunk → List α) (p : Params) (cks : List Chunk) (jsize : Nat) (hs : Ascending cks) :
-    ((truncateNow p cks jsize).chunks.flatMap ev) <:+ (cks.flatMap ev) := by
-  rw [(truncate_prefix p cks jsize hs).2.2]
+theorem suffix_after {α : Type} (ev : Chunk → List α) (p : Params) (cks : List Chunk) (hs : Ascending cks) :
+    ((truncateNow p cks).chunks.flatMap ev) <:+ (cks.flatMap ev) := by
+  rw [(truncate_prefix p cks hs).2.2]
   split
   · exact List.suffix_refl _
-  · refine ⟨(cks.take (chooseNow p cks jsize).n).flatMap ev, ?_⟩
+  · refine ⟨(cks.take (chooseNow p cks).n).flatMap ev, ?_⟩
     rw [← List.flatMap_append, List.take_append_drop]
 
-/-- **Size rule** (consistent snapshot: `Size()` is the sum of the chunk sizes): the `i`-th chunk taken by the size
+/-- **Size rule** (no hypothesis on the sizes: the total is the sum of the snapshot the guards use, b1a5e66): the `i`-th chunk taken by the size
 loop was taken with MAXSIZE given, the partition above MAXSIZE before it went, and at least MINSIZE left after. -/
-theorem size_rule (p : Params) (cks : List Chunk) (i : Nat) (hi : i < (chooseNow p cks (psize cks)).bySize) :
+theorem size_rule (p : Params) (cks : List Chunk) (i : Nat) (hi : i < (chooseNow p cks).bySize) :
     0 < p.maxSrc ∧ p.maxSrc < psize (cks.drop i) ∧ p.minSrc ≤ psize (cks.drop (i + 1)) := by
   have := (choose_spec strict p cks).2.1 i hi
   rw [psize_drop_eq, psize_drop_eq]; exact this
 
 /-- **BEFORE rule**: a chunk taken by the time loop has its newest timestamp strictly below `t`. -/
 theorem before_rule (p : Params) (cks : List Chunk) (i : Nat)
-    (h1 : (chooseNow p cks (psize cks)).bySize ≤ i) (h2 : i < (chooseNow p cks (psize cks)).n) :
+    (h1 : (chooseNow p cks).bySize ≤ i) (h2 : i < (chooseNow p cks).n) :
     (cks.getD i default).maxTs < p.oldestTs ∧ 0 < p.oldestTs := by
   have hfact : strict = true := by decide
   have := ((choose_spec strict p cks).2.2 i h1 h2).1
   rw [hfact] at this
   refine ⟨by simpa [older] using this, ?_⟩
   -- the time loop only runs when OldestTs > 0
-  have hn : 0 < (chooseNow p cks (psize cks)).byTime := by simp only [Choice.n] at h2; omega
-  unfold choose timePhase at hn
+  have hn : 0 < (chooseNow p cks).byTime := by simp only [Choice.n] at h2; omega
+  unfold choose chooseAt timePhase at hn
   by_cases g : 0 < p.oldestTs ∧ (sizePhase p cks (psize cks)).1 < cks.length
   · exact g.1
   · simp [g] at hn
 
 /-- **Never below MINSIZE** in phase I: after every single removal (by either loop) at least MINSIZE is left. -/
-theorem never_below_min (p : Params) (cks : List Chunk) (i : Nat) (hi : i < (chooseNow p cks (psize cks)).n) :
+theorem never_below_min (p : Params) (cks : List Chunk) (i : Nat) (hi : i < (chooseNow p cks).n) :
     p.minSrc ≤ psize (cks.drop (i + 1)) := by
   rw [psize_drop_eq]
-  by_cases h : i < (chooseNow p cks (psize cks)).bySize
+  by_cases h : i < (chooseNow p cks).bySize
   · exact ((choose_spec strict p cks).2.1 i h).2.2
   · exact ((choose_spec strict p cks).2.2 i (by omega) hi).2
 
 /-- **A partition not above MAXSIZE loses nothing to the size rule**, and nothing at all without BEFORE. -/
 theorem untouched_if_not_above_max (p : Params) (cks : List Chunk) (h : psize cks ≤ p.maxSrc ∨ p.maxSrc = 0) :
-    (chooseNow p cks (psize cks)).bySize = 0 ∧
-    (p.oldestTs ≤ 0 → (truncateNow p cks (psize cks)).chunks = cks ∧ (truncateNow p cks (psize cks)).n = 0) := by
-  have hb : (chooseNow p cks (psize cks)).bySize = 0 := by
-    cases hz : (chooseNow p cks (psize cks)).bySize with
+    (chooseNow p cks).bySize = 0 ∧
+    (p.oldestTs ≤ 0 → (truncateNow p cks).chunks = cks ∧ (truncateNow p cks).n = 0) := by
+  have hb : (chooseNow p cks).bySize = 0 := by
+    cases hz : (chooseNow p cks).bySize with
     | zero => rfl
     | succ k =>
       have := (choose_spec strict p cks).2.1 0 (by omega)
@@ -93,9 +100,9 @@ theorem untouched_if_not_above_max (p : Params) (cks : List Chunk) (h : psize ck
       omega
   refine ⟨hb, ?_⟩
   intro ht
-  have hn : (chooseNow p cks (psize cks)).n = 0 := by
+  have hn : (chooseNow p cks).n = 0 := by
     have hb' := hb
-    unfold choose at hb' ⊢
+    unfold choose chooseAt at hb' ⊢
     simp only [Choice.n] at hb' ⊢
     unfold timePhase
     have : ¬ 0 < p.oldestTs := by omega
@@ -105,7 +112,7 @@ theorem untouched_if_not_above_max (p : Params) (cks : List Chunk) (h : psize ck
 
 /-- the reported byte count is the size of the removed prefix -/
 theorem removed_bytes (p : Params) (cks : List Chunk) :
-    (truncateNow p cks (psize cks)).removed = psize (cks.take (chooseNow p cks (psize cks)).n) :=
+    (truncateNow p cks).removed = psize (cks.take (chooseNow p cks).n) :=
   truncate_removed strict p cks
 
 /-! ## the whole command -/
@@ -146,7 +153,7 @@ theorem phase1_part_cases (p : Params) (part : Part) :
     (part.sel = false → (phase1Part strict p part).part = some part) ∧
     ((phase1Part strict p part).part = none ∨ (phase1Part strict p part).part = some part ∨
      (phase1Part strict p part).part =
-       some { part with chunks := (truncateNow p part.chunks (psize part.chunks)).chunks }) := by
+       some { part with chunks := (truncateNow p part.chunks).chunks }) := by
   refine ⟨?_, ?_⟩
   · intro hsel; unfold phase1Part; simp [hsel]
   · unfold phase1Part
@@ -159,8 +166,8 @@ theorem phase1_part_cases (p : Params) (part : Part) :
           · simp [hsel, hz, hd, hc]
           · simp [hsel, hz, hd, hc]
       · simp only [if_neg hsel, if_neg hz]
-        generalize (if (truncate strict p part.chunks (psize part.chunks)).removed = psize part.chunks
-          then (p.dryRun || canDelete part.users (truncate strict p part.chunks (psize part.chunks)).chunks) else false) = D
+        generalize (if (truncate strict p part.chunks).removed = psize part.chunks
+          then (p.dryRun || canDelete part.users (truncate strict p part.chunks).chunks) else false) = D
         by_cases hD : D = true ∧ p.dryRun = false
         · simp [hD]
         · simp [hD]
@@ -168,7 +175,7 @@ theorem phase1_part_cases (p : Params) (part : Part) :
 /-- **A partition is dropped in phase I only when it holds no data afterwards and nobody else uses it.** -/
 theorem drop_only_if_empty_and_unused (p : Params) (part : Part) (h : (phase1Part strict p part).part = none) :
     part.users = 0 ∧ p.dryRun = false ∧
-    psize (truncateNow p part.chunks (psize part.chunks)).chunks = 0 := by
+    psize (truncateNow p part.chunks).chunks = 0 := by
   unfold phase1Part at h
   by_cases hsel : part.sel = false
   · simp [hsel] at h
@@ -182,7 +189,7 @@ theorem drop_only_if_empty_and_unused (p : Params) (part : Part) (h : (phase1Par
         · have hd' : p.dryRun = false := by cases hp : p.dryRun <;> simp_all
           simp only [canDelete, Bool.and_eq_true, beq_iff_eq] at hc
           refine ⟨hc.1, hd', ?_⟩
-          have := truncate_psize_le strict p part.chunks (psize part.chunks)
+          have := truncate_psize_le strict p part.chunks
           omega
         · simp [hc] at h
     · simp only [hz, if_false] at h
@@ -190,9 +197,9 @@ theorem drop_only_if_empty_and_unused (p : Params) (part : Part) (h : (phase1Par
       · simp [hd] at h
       · have hd' : p.dryRun = false := by cases hp : p.dryRun <;> simp_all
         simp only [hd', Bool.false_or] at h
-        by_cases hr : (truncate strict p part.chunks (psize part.chunks)).removed = psize part.chunks
+        by_cases hr : (truncate strict p part.chunks).removed = psize part.chunks
         · simp only [hr, if_true] at h
-          by_cases hc : canDelete part.users (truncate strict p part.chunks (psize part.chunks)).chunks = true
+          by_cases hc : canDelete part.users (truncate strict p part.chunks).chunks = true
           · simp only [canDelete, Bool.and_eq_true, beq_iff_eq] at hc
             exact ⟨hc.1, hd', hc.2⟩
           · simp [hc] at h
@@ -203,12 +210,12 @@ same entry for the sorted list (bytes, chunk count, deleted flag). -/
 theorem dryrun_equals_run_phase1 (p : Params) (part : Part) (hu : part.users = 0) (hs : Ascending part.chunks) :
     (phase1Part strict { p with dryRun := true } part).report = (phase1Part strict { p with dryRun := false } part).report ∧
     (phase1Part strict { p with dryRun := true } part).info = (phase1Part strict { p with dryRun := false } part).info := by
-  have hch : ∀ b, choose strict { p with dryRun := b } part.chunks (psize part.chunks) = choose strict p part.chunks (psize part.chunks) := by
+  have hch : ∀ b, choose strict { p with dryRun := b } part.chunks = choose strict p part.chunks := by
     intro b; rfl
-  have hn : ∀ b, (truncate strict { p with dryRun := b } part.chunks (psize part.chunks)).n = (choose strict p part.chunks (psize part.chunks)).n := by
-    intro b; rw [truncate_n _ _ _ _ hs, hch]
-  have hr : ∀ b, (truncate strict { p with dryRun := b } part.chunks (psize part.chunks)).removed =
-      psize (part.chunks.take (choose strict p part.chunks (psize part.chunks)).n) := by
+  have hn : ∀ b, (truncate strict { p with dryRun := b } part.chunks).n = (choose strict p part.chunks).n := by
+    intro b; rw [truncate_n _ _ _ hs, hch]
+  have hr : ∀ b, (truncate strict { p with dryRun := b } part.chunks).removed =
+      psize (part.chunks.take (choose strict p part.chunks).n) := by
     intro b; rw [truncate_removed, hch]
   unfold phase1Part
   by_cases hsel : part.sel = false
@@ -218,51 +225,89 @@ theorem dryrun_equals_run_phase1 (p : Params) (part : Part) (hu : part.users = 0
     · simp [hz, canDelete, hu]
     · simp only [hz, if_false, hn, hr]
       refine ⟨rfl, ?_⟩
-      by_cases hall : psize (part.chunks.take (choose strict p part.chunks (psize part.chunks)).n) = psize part.chunks
+      by_cases hall : psize (part.chunks.take (choose strict p part.chunks).n) = psize part.chunks
       · simp only [hall, if_true, Bool.true_or, Bool.false_or]
-        have hck : (truncate strict { p with dryRun := false } part.chunks (psize part.chunks)).chunks =
-            part.chunks.drop (choose strict p part.chunks (psize part.chunks)).n := by
-          rw [truncate_chunks _ _ _ _ hs, hch]; simp
-        have hd0 : psize (part.chunks.drop (choose strict p part.chunks (psize part.chunks)).n) = 0 := by
-          have := psize_take_add_drop part.chunks (choose strict p part.chunks (psize part.chunks)).n; omega
+        have hck : (truncate strict { p with dryRun := false } part.chunks).chunks =
+            part.chunks.drop (choose strict p part.chunks).n := by
+          rw [truncate_chunks _ _ _ hs, hch]; simp
+        have hd0 : psize (part.chunks.drop (choose strict p part.chunks).n) = 0 := by
+          have := psize_take_add_drop part.chunks (choose strict p part.chunks).n; omega
         simp [hck, canDelete, hu, hd0]
       · simp [hall]
 
-/-! ## the full statement about DRYRUN, its open classes, and the other open findings -/
+/-! ## DRYRUN and the MAXDBSIZE pass -/
 
-/-- The property's DRYRUN clause at full strength: for any two visiting orders of the same partitions (the dry run
-and the run are two calls, Go's map order differs between them) the dry run's reports, as a set, are the run's. It is
-FALSE for the code as it is: see the three counterexamples below. -/
+/-- **The inner call of the MAXDBSIZE pass empties the partition it takes** (ascending ids, no chunk smaller than two
+bytes — a stored record takes at least 14), so `deleteJournal` then succeeds whenever nobody else holds the partition:
+the run deletes exactly where the dry run says "deleted". -/
+theorem global_truncate_empties_partition (cks : List Chunk) (hs : Ascending cks) (hall : ∀ c ∈ cks, 2 ≤ c.size) :
+    (truncateNow { dryRun := false, minSrc := gMin, maxSrc := gMax } cks).chunks = [] ∧
+    canDelete 0 (truncateNow { dryRun := false, minSrc := gMin, maxSrc := gMax } cks).chunks = true := by
+  have h1 : gMin = 0 := by decide
+  have h2 : gMax = 1 := by decide
+  rw [h1, h2, global_truncate_empties strict cks hs hall]
+  exact ⟨rfl, by decide⟩
+
+/-- **Chunk count of a partition the MAXDBSIZE pass takes: DRYRUN = run** (replaces the retired counterexample of
+finding F30, fixed by 49b0b2b). `ti` is the partition's phase-I entry (`ti.chunksDeleted` chunks chosen there); the dry
+pass sees the unreduced chunk list, the real pass the list phase I left: both write the same entry. -/
+theorem dryrun_chunk_count_agrees (ti : Info) (cks : List Chunk) (h : ti.chunksDeleted ≤ cks.length) :
+    takenInfo true ti cks = takenInfo false ti (cks.drop ti.chunksDeleted) ∧
+    (takenInfo true ti cks).chunksDeleted = cks.length :=
+  ⟨takenInfo_dry_eq_run ti cks h, by simp [takenInfo]; omega⟩
+
+/-- The property's DRYRUN clause at full strength for the whole command: for any two visiting orders of the same
+partitions (the dry run and the run are two calls, Go's map order differs between them), nobody else using them,
+distinct source ids, ascending chunk ids, no chunk below two bytes, the dry run's reports are the run's. Since the
+three repairs (49b0b2b, cac5c5d, b1a5e66) no counterexample is known; the statement is kept here, proved in its parts
+(`dryrun_equals_run_phase1`, `dryrun_chunk_count_agrees`, `global_truncate_empties_partition`, `tie_break_total`)
+and tested as a whole by the harness on every system case. -/
 def dryrun_equals_run_full : Prop :=
-  ∀ (p : Params) (o1 o2 : List Part), o1.Perm o2 → (∀ q ∈ o1, q.users = 0 ∧ Ascending q.chunks) →
+  ∀ (p : Params) (o1 o2 : List Part), o1.Perm o2 → (o1.map (·.src)).Nodup →
+    (∀ q ∈ o1, q.users = 0 ∧ Ascending q.chunks ∧ ∀ c ∈ q.chunks, 2 ≤ c.size) →
     ∀ r, r ∈ (runNow { p with dryRun := true } o1).reports ↔ r ∈ (runNow { p with dryRun := false } o2).reports
 
 def c (id size : Nat) (ts : Int) : Chunk := ⟨id, size, ts⟩
 
-/-- F30 — layout 200+200+120, `MAXSIZE 400 MINSIZE 100 MAXDBSIZE 100`: phase I takes one chunk, the MAXDBSIZE pass then
-takes the partition; the dry run reports 4 chunks, the run removes (and reports) 3. -/
-theorem cex_dryrun_chunk_overcount :
+/-- regression of F30 (fixed): layout 200+200+120, `MAXSIZE 400 MINSIZE 100 MAXDBSIZE 100` — the dry run and the run both
+report 3 chunks. -/
+theorem regress_dryrun_chunk_count :
     let part : Part := ⟨1, true, 0, [c 1 200 5, c 2 200 9, c 3 120 12]⟩
     let p : Params := { maxSrc := 400, minSrc := 100, maxDB := 100 }
-    (runNow { p with dryRun := true } [part]).reports.map (·.chunksDeleted) = [4] ∧
+    (runNow { p with dryRun := true } [part]).reports.map (·.chunksDeleted) = [3] ∧
     (runNow { p with dryRun := false } [part]).reports.map (·.chunksDeleted) = [3] ∧
     (runNow { p with dryRun := false } [part]).db = [] := by decide
 
-/-- F31 — two partitions whose newest events share a timestamp, `MAXDBSIZE` lets exactly one go: which one depends on
-the visiting order, so a dry run in one order names a partition the run in the other order keeps. -/
-theorem cex_dryrun_tie :
+/-- regression of F31 (fixed): two partitions whose newest events share a timestamp, `MAXDBSIZE` lets exactly one go —
+in either visiting order the dry run and the run name the partition with the smaller source id, with equal reports. -/
+theorem regress_dryrun_tie :
     let a : Part := ⟨1, true, 0, [c 1 60 20]⟩
     let b : Part := ⟨2, true, 0, [c 1 60 20]⟩
     let p : Params := { maxDB := 60 }
-    (runNow { p with dryRun := true } [a, b]).reports.map (·.src) = [2] ∧
+    (runNow { p with dryRun := true } [a, b]).reports = (runNow { p with dryRun := false } [b, a]).reports ∧
+    (runNow { p with dryRun := true } [b, a]).reports = (runNow { p with dryRun := false } [a, b]).reports ∧
     (runNow { p with dryRun := false } [b, a]).reports.map (·.src) = [1] := by decide
 
-theorem not_dryrun_equals_run_full : ¬ dryrun_equals_run_full := by
-  intro h
-  have := h { maxDB := 60 } [⟨1, true, 0, [c 1 60 20]⟩, ⟨2, true, 0, [c 1 60 20]⟩]
-    [⟨2, true, 0, [c 1 60 20]⟩, ⟨1, true, 0, [c 1 60 20]⟩] (List.Perm.swap _ _ _)
-    (by intro q hq; simp at hq; rcases hq with rfl | rfl <;> simp [Ascending]) ⟨20, 2, 60, 0, 1, true⟩
-  revert this; decide
+/-- **The order of the sorted insertion is total on distinct source ids** (replaces the retired counterexample of
+finding F31, fixed by cac5c5d): of two entries with different source ids exactly one comes before the other, whatever
+their timestamps — the visiting order can no longer decide. -/
+theorem tie_break_total (a b : Info) (h : a.src ≠ b.src) : notBefore a b = !notBefore b a := by
+  unfold notBefore
+  by_cases h1 : a.latestTs < b.latestTs
+  · have n1 : ¬ b.latestTs < a.latestTs := by omega
+    have n2 : ¬ b.latestTs = a.latestTs := by omega
+    have n3 : ¬ a.latestTs = b.latestTs := by omega
+    simp [h1, n1, n2, n3]
+  · by_cases h2 : b.latestTs < a.latestTs
+    · have n2 : ¬ b.latestTs = a.latestTs := by omega
+      have n3 : ¬ a.latestTs = b.latestTs := by omega
+      simp [h1, h2, n2, n3]
+    · have e : a.latestTs = b.latestTs := by omega
+      by_cases h3 : b.src ≤ a.src
+      · have n4 : ¬ a.src ≤ b.src := by omega
+        simp [e, h3, n4]
+      · have n4 : a.src ≤ b.src := by omega
+        simp [e, h3, n4]
 
 /-- F32 — the MAXDBSIZE pass ignores MAXSIZE and MINSIZE: a 113-byte partition, `MINSIZE 100 MAXSIZE 500 MAXDBSIZE 97`,
 is emptied and dropped although it is not above MAXSIZE and ends below MINSIZE. -/
@@ -271,18 +316,18 @@ theorem cex_global_ignores_bounds :
     (phase1 strict { minSrc := 100, maxSrc := 500, maxDB := 97 } [⟨1, true, 0, [c 1 113 31]⟩]).db =
       [⟨1, true, 0, [c 1 113 31]⟩] := by decide
 
-/-- F43 — `size-uint64(cks[idx].Size())` wraps when the chunk grew after `Size()` was read: `MINSIZE 57 MAXSIZE 113`
-on a one-chunk partition that measured 114 bytes keeps it on a consistent snapshot, but takes it (all of it, and reports
-`2^64 - 38` bytes left) when the chunk has meanwhile grown to 152 bytes. -/
-theorem cex_size_wrap :
-    (chooseNow { minSrc := 57, maxSrc := 113 } [c 1 114 6] 114).n = 0 ∧
-    (chooseNow { minSrc := 57, maxSrc := 113 } [c 1 152 8] 114).n = 1 ∧
-    (chooseNow { minSrc := 57, maxSrc := 113 } [c 1 152 8] 114).size = two64 - 38 := by decide
+/-- regression of F43 (fixed by b1a5e66): `MINSIZE 57 MAXSIZE 113` on a one-chunk partition that has grown from 114 to
+152 bytes keeps the chunk — the loops start from the sum of the sizes they subtract; started from a stale total of 114
+(`chooseAt`, the code before the fix, whose `jrnl.Size()` read could be older) the guard `114 - 152` wraps and the
+chunk is taken. The general statement is `never_below_min`, which no longer has a snapshot hypothesis. -/
+theorem regress_size_wrap :
+    (chooseNow { minSrc := 57, maxSrc := 113 } [c 1 152 8]).n = 0 ∧
+    (chooseAt strict { minSrc := 57, maxSrc := 113 } [c 1 152 8] 114).n = 1 := by decide
 
 /-- F21 (fixed by 62f799c) — with `<=` in the time loop `BEFORE 5` would take a chunk whose newest record is exactly 5;
 with `<` (the code now, `strict = true`) it keeps it. -/
 theorem cex_before_equal :
-    (choose false { oldestTs := 5 } [c 1 2 4, c 2 3 5] 5).n = 2 ∧ (chooseNow { oldestTs := 5 } [c 1 2 4, c 2 3 5] 5).n = 1 := by
+    (choose false { oldestTs := 5 } [c 1 2 4, c 2 3 5]).n = 2 ∧ (chooseNow { oldestTs := 5 } [c 1 2 4, c 2 3 5]).n = 1 := by
   decide
 
 /-- **A reader without an open chunk handle continues at the first remaining event.** -/
@@ -304,16 +349,16 @@ def lay : List Chunk := [c 10 200 5, c 13 200 9, c 17 120 12]
 
 example : Ascending lay := by unfold Ascending lay c; decide
 /-- size rule fires: MAXSIZE 400 MINSIZE 100 takes exactly the oldest chunk -/
-example : (chooseNow { maxSrc := 400, minSrc := 100 } lay (psize lay)).bySize = 1 ∧
-    (truncateNow { maxSrc := 400, minSrc := 100 } lay (psize lay)).chunks = [c 13 200 9, c 17 120 12] := by decide
+example : (chooseNow { maxSrc := 400, minSrc := 100 } lay).bySize = 1 ∧
+    (truncateNow { maxSrc := 400, minSrc := 100 } lay).chunks = [c 13 200 9, c 17 120 12] := by decide
 /-- time rule fires: BEFORE 10 takes the two chunks older than 10, BEFORE 9 only the first -/
-example : (chooseNow { oldestTs := 10 } lay (psize lay)).byTime = 2 ∧ (chooseNow { oldestTs := 9 } lay (psize lay)).byTime = 1 := by
+example : (chooseNow { oldestTs := 10 } lay).byTime = 2 ∧ (chooseNow { oldestTs := 9 } lay).byTime = 1 := by
   decide
 /-- both loops in one call -/
-example : (chooseNow { maxSrc := 400, minSrc := 100, oldestTs := 10 } lay (psize lay)).bySize = 1 ∧
-    (chooseNow { maxSrc := 400, minSrc := 100, oldestTs := 10 } lay (psize lay)).byTime = 1 := by decide
+example : (chooseNow { maxSrc := 400, minSrc := 100, oldestTs := 10 } lay).bySize = 1 ∧
+    (chooseNow { maxSrc := 400, minSrc := 100, oldestTs := 10 } lay).byTime = 1 := by decide
 /-- MINSIZE stops the time loop -/
-example : (chooseNow { minSrc := 300, oldestTs := 100 } lay (psize lay)).n = 1 := by decide
+example : (chooseNow { minSrc := 300, oldestTs := 100 } lay).n = 1 := by decide
 /-- a dry run with the global pass active reports but keeps everything -/
 example : (runNow { dryRun := true, maxDB := 100 } [⟨1, true, 0, lay⟩]).reports.length = 1 := by decide
 /-- the global pass idles when the total fits -/
